@@ -223,6 +223,51 @@ def part_s(spec, res, steps):
     from ptera import probing
 
     n = 0
+    def attempt(text, kw, what, prelude):
+        nonlocal n
+        env = make_env()
+        res.evaluations += 1
+        res.deciding += 1
+        n += 1
+        prb = None
+        refused = None
+        if prelude:
+            # the refusal must not depend on what was attempted before on the same selector
+            # (same text, same functions => same interned selector objects)
+            for pkw in ({"overridable": True}, {"probe_type": "total"}, {"overridable": True, "probe_type": "immediate"}, {"raw": True}, {}):
+                if pkw == kw:
+                    continue
+                try:
+                    steps.begin(text)
+                    q = probing(text, env=env, **pkw)
+                    q.__enter__()
+                    q.__exit__(None, None, None)
+                except BaseException as e:
+                    if type(e).__name__ in ("AssertionError", "IndexError", "AttributeError", "KeyError", "RecursionError", "StepLimit"):
+                        res.violation({"part": "S", "text": text, "kwargs": pkw}, f"{what}: probing({text!r}, {pkw}) failed with internal error {type(e).__name__}: {e}")
+                res.count("S_prelude_attempts")
+        try:
+            steps.begin(text)
+            prb = probing(text, env=env, **kw)
+            prb.__enter__()
+        except BaseException as e:
+            refused = type(e).__name__
+        if refused is None:
+            # a live probe: does it ever match?  record what it delivers for the witness
+            got = []
+            try:
+                prb.subscribe(got.append)
+                env["f"](3)
+                prb.__exit__(None, None, None)
+            except BaseException as e:  # pragma: no cover
+                got.append(repr(e))
+            res.violation({"part": "S", "text": text, "kwargs": kw, "after_other_attempts_on_the_same_selector": prelude}, f"{what}: probing({text!r}, {kw}) was created and activated (events seen: {got[:3]})")
+        else:
+            res.count(f"S_refused:{refused}")
+            res.nontrivial_case("S:" + text + repr(kw))
+            if refused in ("AssertionError", "IndexError", "AttributeError", "KeyError", "RecursionError", "StepLimit"):
+                res.violation({"part": "S", "text": text, "kwargs": kw}, f"{what}: refused with internal error {refused}")
+
     for tpl, kw, what in BAD_TEMPLATES:
         for fn in ("f", "a.b"):
             for v in ("y", "x", "#value", "#enter"):
@@ -234,33 +279,8 @@ def part_s(spec, res, steps):
                     if "{v}" not in tpl and v != "y":
                         continue
                     text = tpl.format(fn=fn, v=v, ctx=ctx)
-                    env = make_env()
-                    res.evaluations += 1
-                    res.deciding += 1
-                    n += 1
-                    prb = None
-                    refused = None
-                    try:
-                        steps.begin(text)
-                        prb = probing(text, env=env, **kw)
-                        prb.__enter__()
-                    except BaseException as e:
-                        refused = type(e).__name__
-                    if refused is None:
-                        # a live probe: does it ever match?  record what it delivers for the witness
-                        got = []
-                        try:
-                            prb.subscribe(got.append)
-                            env["f"](3)
-                            prb.__exit__(None, None, None)
-                        except BaseException as e:  # pragma: no cover
-                            got.append(repr(e))
-                        res.violation({"part": "S", "text": text, "kwargs": kw}, f"{what}: probing({text!r}, {kw}) was created and activated (events seen: {got[:3]})")
-                    else:
-                        res.count(f"S_refused:{refused}")
-                        res.nontrivial_case("S:" + text + repr(kw))
-                        if refused in ("AssertionError", "IndexError", "AttributeError", "KeyError", "RecursionError", "StepLimit"):
-                            res.violation({"part": "S", "text": text, "kwargs": kw}, f"{what}: refused with internal error {refused}")
+                    for prelude in (False, True):
+                        attempt(text, kw, what, prelude)
     res.sample({"part": "S", "templates": len(BAD_TEMPLATES), "instances": n})
 
 
